@@ -199,6 +199,10 @@ def run(pid, tier):
             import area_float
             e2, r2, n2 = area_float.side_rejects(work, model, tier)   # float clauses of C03 / C16
             events, rejects, ntr = events + e2, rejects + r2, ntr + n2
+        if pid == "C03":
+            import area_alloc
+            e2, r2, n2 = area_alloc.side_rejects(work, model, tier)   # advertised sizes under allocation failures
+            events, rejects, ntr = events + e2, rejects + r2, ntr + n2
         if pid == "C02":
             import area_scalar
             e2, r2, n2 = area_scalar.side_bits(work, model, tier)     # single-value Elias coders, zig-zag
@@ -218,7 +222,7 @@ def run(pid, tier):
                             "inputs inside a scenario class are sampled by seed, not enumerated"],
                            extra={"negative_control": negc, "tiers": tiers, "scenarios": nsc,
                                   "selector_recipes": selinfo,
-                                  "wire_format": {"what": "Enc events of FOR/RLE/delta/group/dict with <= 40 values compared byte for "
+                                  "wire_format": {"what": "Enc events of FOR/PFOR/RLE/delta/group/dict/Elias gamma+delta arrays/BP128 (32, 64, delta) and the adaptive envelope with <= 40 values compared byte for "
                                                           "byte with Wire.tla (unclaimed conformance fact, never a violation)",
                                                   "checked": notes.get("wire-checked", 0),
                                                   "drift": {k: v for k, v in notes.items() if k.startswith("wire-drift")}}})
